@@ -122,6 +122,21 @@ func checkC13(c *Ctx) {
 				}
 			}
 		}
+		if !okBound {
+			// the receiver comes out of lookup helpers: every non-nil origin is this call's PrivateData
+			n := 0
+			okBound = true
+			for pv := range provOf(rr.Call.Args[0]) {
+				if pv == "nil" {
+					continue
+				}
+				n++
+				if !strings.HasPrefix(pv, use.Params[1].Name()+".PrivateData") {
+					okBound = false
+				}
+			}
+			okBound = okBound && n > 0
+		}
 		okBound = okBound && rr.Call.Args[1] == ssa.Value(use.Params[0])
 	}
 	r.Ob("USE", "Use runs the script bound in PrivateData on the caller's task as parent", t.Pos(use.Pos()), okBound, "the callee is the script the linker bound to this call site")
@@ -170,8 +185,21 @@ func checkC13(c *Ctx) {
 			latch = true // SetExit() on the executor's own task is that store
 		}
 		if latch {
-			if ret, ok := in.Block().Instrs[len(in.Block().Instrs)-1].(*ssa.Return); ok && retError(ret) != "nil" {
+			lb := in.Block()
+			if ret, ok := lb.Instrs[len(lb.Instrs)-1].(*ssa.Return); ok && retError(ret) != "nil" {
 				okErrArm = true
+			}
+			// … or the arm leaves the statement loop for a single exit that returns the (named) error
+			if _, isJ := lb.Instrs[len(lb.Instrs)-1].(*ssa.Jump); isJ && len(lb.Succs) == 1 && retClassFrom(lb, 0) == "nonnil" {
+				out := true
+				for _, l := range naturalLoops(runStmts) {
+					if l.Blocks[lb] && l.Blocks[lb.Succs[0]] {
+						out = false
+					}
+				}
+				if out {
+					okErrArm = true
+				}
 			}
 		}
 	})
@@ -202,7 +230,7 @@ func checkC13(c *Ctx) {
 					return
 				}
 				fa, ok := s.Addr.(*ssa.FieldAddr)
-				if !ok || fieldName(fa) != "procExit" || namedOf(fa.X.Type()) != "runtime.Task" {
+				if !ok || fieldName(fa) != "procExit" || !(namedOf(fa.X.Type()) == "runtime.Task" || (taskField(fa) && fa.Parent().Pkg != nil && fa.Parent().Pkg.Pkg.Path() == pRT)) {
 					return
 				}
 				nw++
@@ -287,6 +315,11 @@ func checkC13(c *Ctx) {
 				}
 			}
 		})
+	}
+	if !okPE && pe != nil {
+		if sr := t.Method(pRT, "Task", "StmtRetrun"); sr != nil {
+			okPE, _ = pollFnSpec(pe, sr) // decided on the outcomes: latch set on entry ⇒ true, whatever the signal
+		}
 	}
 	r.Ob("STOP-AFTER-EXIT", "ProcExit reports the latch even without a signal", "pkg/engine/runtime/context.go", okPE, "return ctx.procExit")
 	// every loop executor stops as soon as the exit latch is set (C14's poll rule: StmtRetrun is ProcExit, which
